@@ -51,6 +51,8 @@ func checkC03(w *World, c *Check, tier string) {
 	c.floor("C03.W-cover", 300)
 	c.floor("C03.R-cover", 300)
 	c.floor("C03.RW", 300)
+	c.floor("C03.flag", 20)
+	checkFlagDiscipline(w, c, "C03.flag", nil)
 	for _, s := range w.TaggedStructs() {
 		gt := t.gobTableFor(s)
 		missing := []string{}
